@@ -64,6 +64,8 @@ structure StoreRel (F : Frame) (nA nB : List Node) : Prop where
   len : nB.length = nA.length + F.c
   node : ∀ j, nB.getD (F.ι j) default = shN F (j == 0) (nA.getD j default)
   doc : (nA.getD 0 default).kind = .document
+  /-- B's old nodes `1..c` are never touched -/
+  old : ∀ i, 1 ≤ i → i ≤ F.c → nB.getD i default = F.oldNodes.getD i default
 
 /-! ### contexts -/
 
@@ -336,7 +338,9 @@ theorem ι_lt {F : Frame} {nA nB : List Node} (h : StoreRel F nA nB) (i : Nat) :
 theorem StoreRel.set {F : Frame} {nA nB : List Node} (h : StoreRel F nA nB) (id : Nat) {a b : Node}
     (hab : b = shN F (id == 0) a) (hk : id = 0 → a.kind = .document) :
     StoreRel F (nA.set id a) (nB.set (F.ι id) b) := by
-  refine ⟨by simp [h.pos], by simp [h.len], fun i => ?_, ?_⟩
+  refine ⟨by simp [h.pos], by simp [h.len], fun i => ?_, ?_, fun i h1 h2 => ?_⟩
+  rotate_left 2
+  · rw [getD_set_ne _ _ _ _ _ (by unfold Frame.ι; split <;> omega)]; exact h.old i h1 h2
   · by_cases hi : i = id
     · subst hi
       by_cases hlt : i < nA.length
@@ -379,7 +383,9 @@ theorem newNode_l {F b rA rB sA sB} (h : SRL F b rA rB sA sB) (nA nB : Node) (hn
   unfold newNode
   have hpos := h.n.pos
   have hl : sB.nodes.length = F.ι sA.nodes.length := by rw [h.n.len, ι_pos F (by omega)]
-  refine P2.ok ⟨rfl, hl, by omega, h.ra, h.rb, h.srcA, h.srcB, ⟨by simp, by simp [h.n.len]; omega, fun i => ?_, ?_⟩, h.c⟩
+  refine P2.ok ⟨rfl, hl, by omega, h.ra, h.rb, h.srcA, h.srcB, ⟨by simp, by simp [h.n.len]; omega, fun i => ?_, ?_, fun i h1 h2 => ?_⟩, h.c⟩
+  rotate_left 2
+  · rw [getD_append_lt _ _ _ _ (by rw [h.n.len]; omega)]; exact h.n.old i h1 h2
   · by_cases hi : i = sA.nodes.length
     · subst hi
       rw [getD_append_eq, ← hl, getD_append_eq]
